@@ -63,10 +63,58 @@ func genC02(seed uint64, tier string) *Plan {
 	return p
 }
 
+// genGCHeavy: few keys in distinct buckets rewritten over and over on tiny index
+// and primary files, with a GC cycle of either kind and a flush (= fsck
+// checkpoint) after almost every step, so that record spans are marked, merged,
+// truncated and files unlinked many times within one history.
+func genGCHeavy(seed uint64, tier string) *Plan {
+	r := simrt.NewRand(seed)
+	p := &Plan{Engine: "seq", X: map[string]int{"fsck": 1}}
+	p.Cfg = StoreCfg{Primary: "multihash", Bits: 8, FileCache: []int{0, 1, 512}[r.Intn(3)]}
+	p.Cfg.IndexFile = []uint32{32, 64, 90, 100, 128, 300}[r.Intn(6)]
+	p.Cfg.PrimaryFile = []uint32{32, 64, 100, 300, 1024}[r.Intn(5)]
+	p.Cfg.GCMs = 1000 * 3600 * 1000
+	nk := 2 + r.Intn(4)
+	p.Keys = GenKeys(r, nk, false)
+	for i := range p.Keys {
+		p.Keys[i].Digest[0] = byte(10 + i) // distinct buckets: one record list per key
+	}
+	vseq := 0
+	n := 10 + r.Intn(40)
+	for i := 0; i < n; i++ {
+		vseq++
+		op := Op{K: "put", Key: r.Intn(nk), VSeq: vseq, VLen: 4 + r.Intn(12)}
+		if r.Chance(0.1) {
+			op = Op{K: "remove", Key: r.Intn(nk)}
+		}
+		p.Ops = append(p.Ops, op)
+		if r.Chance(0.7) {
+			p.Ops = append(p.Ops, Op{K: "flush"})
+		}
+		if r.Chance(0.5) {
+			if r.Chance(0.7) {
+				p.Ops = append(p.Ops, Op{K: "igc", A: r.Intn(2)}, Op{K: "flush"})
+			} else {
+				p.Ops = append(p.Ops, Op{K: "pgc", A: []int{0, 50, 85, 101}[r.Intn(4)]}, Op{K: "flush"})
+			}
+		}
+		if r.Chance(0.2) {
+			p.Ops = append(p.Ops, Op{K: "get", Key: r.Intn(nk)})
+		}
+	}
+	p.Sim = SimCfg{Strategy: simrt.Strategy{Kind: "sticky", Stick: 0.9}}
+	return p
+}
+
 // genC04: histories on the multihash primary with small files and GC cycles of
 // both kinds at arbitrary positions (with unflushed data, repeated, interrupted).
 func genC04(seed uint64, tier string) *Plan {
 	r := simrt.NewRand(seed)
+	if r.Chance(0.2) {
+		p := genGCHeavy(seed^0x40c4, tier)
+		delete(p.X, "fsck")
+		return p
+	}
 	p := &Plan{Engine: "seq", X: map[string]int{}}
 	p.Cfg = genCfg(r, false)
 	p.Cfg.Primary = "multihash"
@@ -129,7 +177,9 @@ func genC04(seed uint64, tier string) *Plan {
 // concurrent runs; only fsck failures are reported under C07.
 func genC07(seed uint64, tier string) *Plan {
 	r0 := simrt.NewRand(seed ^ 0x7007)
-	switch r0.Weighted([]int{35, 25, 20, 20}) {
+	switch r0.Weighted([]int{30, 20, 15, 15, 20}) {
+	case 4:
+		return genGCHeavy(seed^0x71c4, tier)
 	case 1:
 		p := genC04(seed^0x7104, tier)
 		p.X["fsck"] = 1
